@@ -182,13 +182,28 @@ fn process_file_into(
         {
             let grammar = parse_and_normalize_grammar(&session, &file_text)?;
             let buffer = emit_recursive_ascent(&session, &grammar, report_file)?;
-            let mut output_file = fs::File::create(rs_file)?;
-            writeln!(output_file, "{LALRPOP_VERSION_HEADER}")?;
-            writeln!(output_file, "{}", hash_file(lalrpop_file)?)?;
-            output_file.write_all(&buffer)?;
+            // Write to a temporary file and rename it into place, so that an
+            // interrupted build never leaves a truncated file whose header
+            // claims that it is up to date.
+            let mut tmp_file = rs_file.as_os_str().to_owned();
+            tmp_file.push(".tmp");
+            let tmp_file = PathBuf::from(tmp_file);
+            let written = write_output(&tmp_file, lalrpop_file, &buffer)
+                .and_then(|()| fs::rename(&tmp_file, rs_file));
+            if written.is_err() {
+                let _ = fs::remove_file(&tmp_file);
+            }
+            written?;
         }
     }
     Ok(())
+}
+
+fn write_output(output_path: &Path, lalrpop_file: &Path, buffer: &[u8]) -> io::Result<()> {
+    let mut output_file = fs::File::create(output_path)?;
+    writeln!(output_file, "{LALRPOP_VERSION_HEADER}")?;
+    writeln!(output_file, "{}", hash_file(lalrpop_file)?)?;
+    output_file.write_all(buffer)
 }
 
 fn remove_old_file(rs_file: &Path) -> io::Result<()> {
